@@ -163,7 +163,9 @@ func (c *Ctx) Finish(explanation string) int {
 		}
 		st := "ok  "
 		if !o.OK {
-			if _, isKnown := known[o.Key]; isKnown {
+			// the same construct seen in a second build configuration is the same finding
+			baseKey := strings.TrimSuffix(o.Key, " [GOOS=windows]")
+			if _, isKnown := known[baseKey]; isKnown {
 				st = "KNWN"
 				knownHit = append(knownHit, o)
 			} else {
@@ -183,7 +185,7 @@ func (c *Ctx) Finish(explanation string) int {
 		fmt.Println("note:", n)
 	}
 	for _, o := range knownHit {
-		fmt.Printf("KNOWN-FINDING: property=%s %s: %s (%s)\n", c.Prop, o.Key, known[o.Key].What, o.Pos)
+		fmt.Printf("KNOWN-FINDING: property=%s %s: %s (%s)\n", c.Prop, o.Key, known[strings.TrimSuffix(o.Key, " [GOOS=windows]")].What, o.Pos)
 	}
 	samples := []any{}
 	step := 1
